@@ -29,14 +29,34 @@ Shaped == /\ Ev.ev = "parse" /\ Len(Ev.res) = Len(T.ws) /\ Len(Ev.cres) = Len(T.
 OkAt(j) == LET r == Parse(Ev.t, T.ws[j], 1) IN
            Ev.res[j] = r /\ Ev.cres[j] = [ok |-> r.ok, v |-> r.v]
 
-Accepts == Shaped /\ WF(Ev.t) /\ \A j \in DOMAIN T.ws : OkAt(j)
+(* notrace events: "a failed alternative leaves no trace on what later alternatives see", for the   *)
+(* context-sensitive combinators (WithIndent / HangingString keep an indent stack in the parse      *)
+(* context) that Parse does not model.  The driver ran two grammars on the same input w:            *)
+(*   outer = WithIndent(P >> X)  where X is Choice(WithIndent(f), H) / Opt(WithIndent(f)) >> H /     *)
+(*           Many(WithIndent(f)) >> H,  P the literal prefix p, H a HangingString                   *)
+(*   base  = WithIndent(P >> H)                                                                      *)
+(* When the reference says f FAILS where it is tried (after the prefix), the failed alternative     *)
+(* must be invisible: both grammars must have done the same.                                        *)
+NTShaped == /\ Ev.ev = "notrace" /\ Ev.form \in {"choice", "opt", "many"}
+            /\ \A i \in DOMAIN Ev.w : Len(Ev.w[i]) = 1
+            /\ Len(Ev.p) < Len(Ev.w) /\ \A i \in DOMAIN Ev.p : Ev.w[i] = Ev.p[i]
+            /\ Ev.w[Len(Ev.p) + 1] \notin {" ", "\t", "\n", "\r"}        \* WithIndent(f) tries f right there
+            /\ WF(Ev.f) /\ (Ev.form = "many" => Consumes(Ev.f))
+NTOK == ~Parse(Ev.f, Ev.w, Len(Ev.p) + 1).ok => Ev.outer = Ev.base
+
+Accepts == IF Ev.ev = "notrace" THEN NTShaped /\ NTOK
+           ELSE Shaped /\ WF(Ev.t) /\ \A j \in DOMAIN T.ws : OkAt(j)
 
 RECURSIVE JoinKinds(_, _)
 JoinKinds(ts, i) == IF i > Len(ts) THEN "" ELSE (IF i > 1 THEN "," ELSE "") \o ts[i].k \o JoinKinds(ts, i + 1)
 Shape(t) == IF t.ts = <<>> THEN t.k ELSE t.k \o "(" \o JoinKinds(t.ts, 1) \o ")"
 
 Diagnose ==
-    IF ~Shaped THEN [clause |-> "malformed-event", size |-> 0, at |-> 0]
+    IF Ev.ev = "notrace" THEN
+        (IF ~NTShaped THEN [clause |-> "malformed-event", size |-> 0, at |-> 0]
+         ELSE [clause |-> "NoTrace:failed-alternative-changes-later-result:withindent-" \o Ev.form,
+               size |-> Size(Ev.f), at |-> 0])
+    ELSE IF ~Shaped THEN [clause |-> "malformed-event", size |-> 0, at |-> 0]
     ELSE IF ~WF(Ev.t) THEN [clause |-> "malformed-term", size |-> 0, at |-> 0]
     ELSE LET j == CHOOSE j \in DOMAIN T.ws : ~OkAt(j)
              r == Parse(Ev.t, T.ws[j], 1)
